@@ -73,6 +73,8 @@ def w_fn(f):
         return [0, Z(f[1])]
     if k == "mul":
         return [1, Z(f[1])]
+    if k == "const":
+        return [3, Z(f[1])]
     return [2] + w_bytes(f[1].encode("utf-8"))
 
 
@@ -299,7 +301,7 @@ def g_source(rng, kind=None, size=None):
 
 def g_fn(rng):
     return rng.choice([("add", rng.choice([-2, 1, 3, 10])), ("mul", rng.choice([2, 3])), ("tag", rng.choice(["!", "é", "_x"])),
-                       ("add", 1), ("mul", 2)])
+                       ("add", 1), ("mul", 2), ("const", rng.choice([0, 7]))])
 
 
 def g_pr(rng, endless=False):
@@ -319,7 +321,7 @@ def g_chain(rng, base, depth=None, endless=False):
             mapped = True
         elif endless and mapped:
             # over an endless source a filter must let infinitely many elements through
-            e = ("filter", rng.choice([("true",), ("ne", rng.choice(NUMS))]), e)
+            e = ("filter", rng.choice([("true",), ("ne", "zz")]), e)
         else:
             e = ("filter", g_pr(rng, endless), e)
     return e
@@ -724,7 +726,7 @@ def run(ctx):
         if rel(marker_heights(rec, nil, pop)) != rel([int(l[1:]) for l in ml if l.startswith("#")]):
             ctx.violation("iteration state left on the VM stack", input=text, wire=w)
         return
-    progs = directed(rng, quick) + [g_program(rng) for _ in range(350 if quick else 5000)]
+    progs = directed(rng, quick) + [g_program(rng) for _ in range(350 if quick else 4000)]
     for p in progs:
         p["facts"] = facts(p["body"])
     done = evaluate(ctx, progs, "main")
